@@ -62,3 +62,6 @@ def run(ctx, proofs_ok):
     apicheck.run_resp_streams(ctx, [
         {"label": "hash and set commands over the network protocol (handlers) against the model", "fams": ['hashes', 'sets', 'hashes', 'sets', 'keyspace'], "n": (2500, 8000), "count": (2, 16), "conns": 1},
     ])
+    # a second oracle that owes nothing to the model: the documented Redis semantics (bin/refredis.py)
+    from checks import refcheck
+    refcheck.run(ctx, "hhttk", "hashes and sets against the reference implementation of the documented semantics")
